@@ -142,6 +142,9 @@ type verifC14Start struct {
 	held      string // "h"/"d" if the instance had been put on hold/drain before the StartContainer call
 	matched   bool   // a StartContainer(uuid)=true call preceded this exec
 	callAt    time.Time
+	atRestart string // API-side state of the container at the last dispatcher restart ("-" if none)
+	sinceMs   int64  // ms between the last restart and the StartContainer call (-1 if none)
+	unknown   int    // workers in state unknown when StartContainer was called
 }
 
 type verifC14Hold struct {
@@ -165,6 +168,7 @@ type verifC14Obs struct {
 	epoch       int  // number of restarts so far
 	untracked   []string
 	nTrackCheck int
+	atRestart   map[string]string // API-side states at the last restart
 }
 
 // all live processes, per existing VM
@@ -362,9 +366,23 @@ func (p *verifC14Pool) StartContainer(it arvados.InstanceType, ctr arvados.Conta
 	n := verifC14Num(ctr.UUID)
 	cached, _ := o.queue.Get(ctr.UUID)
 	api, _, _ := o.queue.VerifC14State(ctr.UUID)
+	unknown := 0
+	for _, v := range p.pool.Instances() {
+		if v.WorkerState == "unknown" {
+			unknown++
+		}
+	}
 	o.mtx.Lock()
 	o.nStartCalls++
+	atRestart, since := "-", int64(-1)
+	if !o.restartAt.IsZero() {
+		atRestart = verifC14St(o.atRestart[ctr.UUID])
+		since = time.Since(o.restartAt).Milliseconds()
+	}
 	info := &verifC14Start{
+		atRestart: atRestart,
+		sinceMs:   since,
+		unknown:   unknown,
 		uuid:      n,
 		snapState: verifC14St(string(ctr.State)),
 		snapPrio:  ctr.Priority,
@@ -399,7 +417,7 @@ type verifC14Params struct {
 	seed, n, restarts, quota, cancels, prio0, holds, kills int
 	crash, deadlock, destroyErr                            int // percent
 	broken, missing, reportBroken                          int // every k-th VM (0 = never)
-	staleMs, durMs                                         int
+	staleMs, durMs, detachMs                               int
 }
 
 func verifC14Parse(f []string) (p verifC14Params, ok bool) {
@@ -446,6 +464,8 @@ func verifC14Parse(f []string) (p verifC14Params, ok bool) {
 			p.staleMs = v
 		case "dur":
 			p.durMs = v
+		case "detach":
+			p.detachMs = v
 		default:
 			return p, false
 		}
@@ -572,6 +592,9 @@ func verifC14Run(p verifC14Params) (out string) {
 		vmMtx.Unlock()
 		svm.Boot = time.Now().Add(time.Duration(rand.Int63n(int64(5 * time.Millisecond))))
 		svm.CrunchRunDetachDelay = time.Duration(rand.Int63n(int64(10 * time.Millisecond)))
+		if p.detachMs > 0 {
+			svm.CrunchRunDetachDelay = time.Duration(p.detachMs/2+rand.Intn(p.detachMs/2+1)) * time.Millisecond
+		}
 		svm.ExecuteContainer = func(arvados.Container) int { return int(rand.Uint32() & 0x3) }
 		svm.CrunchRunCrashRate = float64(p.crash) / 100
 		svm.ArvMountDeadlockRate = float64(p.deadlock) / 100
@@ -655,7 +678,9 @@ func verifC14Run(p verifC14Params) (out string) {
 			switch ev.what {
 			case "restart":
 				disp.Close()
+				snap := queue.VerifC14All()
 				obs.mtx.Lock()
+				obs.atRestart = snap
 				obs.epoch++
 				obs.pool = nil
 				obs.restartAt = time.Now()
@@ -667,7 +692,7 @@ func verifC14Run(p verifC14Params) (out string) {
 				nrestart++
 				// the old process is gone; its SSH commands that were already on the wire finish
 				// before the supervisor has started a new dispatcher
-				time.Sleep(150 * time.Millisecond)
+				time.Sleep(time.Duration(150+p.detachMs) * time.Millisecond)
 				disp = newDisp()
 			case "cancel":
 				uuid := test.ContainerUUID(rng.Intn(p.n) + 1)
@@ -742,8 +767,12 @@ func verifC14Run(p verifC14Params) (out string) {
 		if held == "" {
 			held = "-"
 		}
-		toks = append(toks, fmt.Sprintf("%d@%s/%s/%s%d/%s/%s/%s/%s/%s", s.uuid, strings.Replace(s.inst, ",", "_", -1),
-			strings.Replace(others, ",", "_", -1), s.snapState, s.snapPrio, s.cache, s.api, kf, held, m))
+		ar := s.atRestart
+		if ar == "" {
+			ar = "-"
+		}
+		toks = append(toks, fmt.Sprintf("%d@%s/%s/%s%d/%s/%s/%s/%s/%s/%s/%d/%d", s.uuid, strings.Replace(s.inst, ",", "_", -1),
+			strings.Replace(others, ",", "_", -1), s.snapState, s.snapPrio, s.cache, s.api, kf, held, m, ar, s.sinceMs, s.unknown))
 	}
 	obsStr := "-"
 	if len(toks) > 0 {
